@@ -1049,6 +1049,16 @@ def r15_5(ctx):
                                           "trailing whitespace" % sorted({C.op_const(x.data) for x in pat if x.kind == "const"}), site=ctx.site(al, bb))
                         else:
                             forms.add("prefix-without-trailing-whitespace")
+                        # .. and it is compared with the REST OF THE LINE as it is: a line that is the trimmed prefix plus other trailing
+                        # whitespace (`//<TAB>` after a `// ` prefix) is none of the three forms and must end the directive
+                        other = [x for x in t["args"] if x is not a]
+                        for o in other:
+                            olv = C.trace(al, o, through_fields=True)
+                            if any(x.kind == "call" and re.search(r"::trim(_end|_start)?(_matches)?$", C.callee_name(x.data) or "") and
+                                   not has_field(C.trace(al, x.data["args"][0], through_fields=True), "prefix") for x in olv):
+                                ctx.violation([al.name, "bare-prefix-line-trimmed"], "the bare-prefix continuation form compares the trimmed prefix "
+                                              "with a TRIMMED rest of the line: a bare prefix followed by other whitespace is swallowed as an "
+                                              "empty argument instead of ending the directive", site=ctx.site(al, bb))
         if nm == "std::slice::<impl [T]>::get":
             # byte-level spelling of "starts with len(prefix) spaces": bytes.get(..len(prefix)) whose items are compared with b' '
             from rules_panic import range_parts, len_of
@@ -1073,11 +1083,12 @@ def r15_5(ctx):
     TRIMS = ("std::str::<impl str>::trim_end_matches", "std::str::<impl str>::trim_end")
     for bb, t in pushes:
         verdict = []
-        work = [(al, l) for l in C.trace(al, t["args"][1])]
+        # (body, leaf, was a right-trim passed on the way from the push to this leaf?)
+        work = [(al, l, False) for l in C.trace(al, t["args"][1])]
         seen_w = 0
-        while work and seen_w < 40:
+        while work and seen_w < 60:
             seen_w += 1
-            fb, l = work.pop()
+            fb, l, trimmed = work.pop()
             if l.kind == "const" and C.op_const(l.data) == '""':
                 verdict.append("ok")
                 continue
@@ -1086,31 +1097,28 @@ def r15_5(ctx):
                 verdict.append("ok")          # the empty argument of the bare-prefix form
                 continue
             if nm in TRIMS:
-                work += [(fb, m) for m in C.trace(fb, l.data["args"][0])]
-                verdict.append("trimmed")
+                work += [(fb, m, True) for m in C.trace(fb, l.data["args"][0])]
                 continue
             if nm in ("std::option::Option::<T>::or_else", "std::option::Option::<T>::or"):
-                work += [(fb, m) for m in C.trace(fb, l.data["args"][0])]
+                work += [(fb, m, trimmed) for m in C.trace(fb, l.data["args"][0])]
                 clb = lib.bodies.get(l.data["arg_tys"][1].get("closure", "")) if len(l.data["arg_tys"]) > 1 else None
                 if clb is not None:
-                    work += [(clb, m) for m in C.trace(clb, {"l": 0, "p": []})]
+                    work += [(clb, m, trimmed) for m in C.trace(clb, {"l": 0, "p": []})]
                 else:
-                    work += [(fb, m) for m in C.trace(fb, l.data["args"][1])]
+                    work += [(fb, m, trimmed) for m in C.trace(fb, l.data["args"][1])]
                 continue
             if nm == "std::str::traits::<impl std::ops::Index<I> for str>::index":
                 from rules_panic import range_parts, len_of
                 kind, parts = range_parts(fb, l.data["args"][1])
                 lo = len_of(fb, parts.get("start")) if kind == "RangeFrom" else None
                 pfx = [x for x in (lo or []) if x[0] == "field" and any(n == "prefix" for (_o, _v, n) in x[1])]
-                verdict.append("ok" if pfx else "slice is not line[prefix.len()..]")
+                verdict.append(("ok" if trimmed else "not right-trimmed (one of the continuation forms hands the rest of the line on as it is)")
+                               if pfx else "slice is not line[prefix.len()..]")
             elif nm == "std::str::<impl str>::strip_prefix":
-                verdict.append("ok")          # removes the pattern exactly once
+                # removes the pattern exactly once
+                verdict.append("ok" if trimmed else "not right-trimmed (one of the continuation forms hands the rest of the line on as it is)")
             else:
                 verdict.append("argument text passes through %s (content would be altered)" % (nm or l.kind))
-        if "trimmed" not in verdict and any(v == "ok" for v in verdict) and not all(
-                l.kind == "const" or (l.kind == "call" and l.callee() == "std::string::String::new") for l in C.trace(al, t["args"][1])):
-            verdict.append("not right-trimmed")
-        verdict = [v for v in verdict if v != "trimmed"]
         bad = [v for v in verdict if v != "ok"]
         if verdict and not bad:
             ctx.ok("appended argument = line minus the prefix-long head, right-trimmed (or empty)", site=ctx.site(al, bb))
@@ -1203,11 +1211,15 @@ def r01_6(ctx):
                     if te is not None:
                         fe.add(te)
             if fe and all(C.guarded(ri, bb, fe) for bb, t in seps):
-                flag = (l, fe)
+                # (a per-iteration `let executing = pp_mode.is_execute()` whose true edge happens to dominate the writes too is not the
+                # pending flag: the flag is a mutable bool that is only ever assigned)
+                assigned_only = all(r[0] == "assign" for r in ri.defs().get(l, []))
+                if flag is None or (assigned_only and not flag[2]):
+                    flag = (l, fe, assigned_only)
     if flag is None:
         ctx.violation(["no-pending-flag"], "the separator writes are not all guarded by one pending-newline flag", site=ctx.site(ri, seps[0][0]))
         return
-    fl, fe = flag
+    fl, fe = flag[0], flag[1]
     ctx.ok("every separator write is guarded by the pending flag `%s`" % ri.local_name(fl), site=ctx.site(ri, seps[0][0]))
     # assignments of the flag
     cbb = contents[0][0]
@@ -1831,8 +1843,25 @@ def r11_9(ctx):
         b = body(ctx, role_name)
         if not b:
             continue
+        def appends_to_own_name(t):
+            """`p.with_file_name(name)` with `name` = `p.file_name()` plus pushed text, and that `file_name()` itself: the name is only
+            appended to (which components are appended is R11.10's account)"""
+            nm = C.callee_name(t)
+            OS_COPY = lambda t2: C.is_transparent(t2) or C.is_try_branch(t2) or (C.callee_name(t2) or "") in (
+                "std::ffi::OsStr::to_os_string", "<std::ffi::OsStr as std::borrow::ToOwned>::to_owned", "<std::ffi::OsString as std::clone::Clone>::clone",
+                "std::ffi::OsString::as_os_str", "<std::ffi::OsString as std::ops::Deref>::deref", "std::convert::AsRef::as_ref")
+            recv = lambda tt: frozenset((l.kind, l.data if l.kind == "param" else l.bb) for l in C.trace(b, tt["args"][0], through_fields=True))
+            if nm == "std::path::Path::with_file_name" and len(t["args"]) == 2:
+                lv = C.trace(b, t["args"][1], transparent=OS_COPY)
+                return bool(lv) and all(l.kind == "call" and C.callee_name(l.data) == "std::path::Path::file_name" and recv(l.data) == recv(t) for l in lv)
+            if nm == "std::path::Path::file_name":
+                # only as the starting point of such a with_file_name
+                return any(C.callee_name(t2) == "std::path::Path::with_file_name" and len(t2["args"]) == 2 and
+                           any(l.kind == "call" and l.data is t for l in C.trace(b, t2["args"][1], transparent=OS_COPY)) and appends_to_own_name(t2)
+                           for bb2, t2 in b.calls())
+            return False
         bad = sorted({C.callee_name(t) for bb, t in b.calls() if PATH_NAME_SURGERY.match(C.callee_name(t) or "")
-                      and not (t["span"].get("macro") or t["span"].get("exp"))})
+                      and not (t["span"].get("macro") or t["span"].get("exp")) and not appends_to_own_name(t)})
         # error messages may display the path
         bad = [x for x in bad if not x.endswith("::display")]
         if bad:
@@ -1994,20 +2023,35 @@ def _candidate_deltas(prog, b):
         seen = set()
         while pl is not None and pl["l"] not in seen:
             seen.add(pl["l"])
-            if pl["l"] in st and all(e["k"] == "deref" for e in pl["p"]):
+            payload = lambda e: e["k"] == "deref" or e["k"] == "downcast" or (
+                e["k"] == "field" and e.get("owner") in ("std::option::Option", "std::ops::ControlFlow") and e.get("variant") in ("Some", "Continue"))
+            if pl["l"] in st and all(payload(e) for e in pl["p"]):
                 return pl["l"]
             ds = [r for r in b.defs().get(pl["l"], []) if r[0] in ("assign", "call")]
             if len(ds) != 1:
                 return None
             if ds[0][0] == "call":
                 t2 = ds[0][2]
-                if C.callee_name(t2) in VIEW and t2["args"]:
+                if (C.callee_name(t2) in VIEW or C.is_try_branch(t2)) and t2["args"]:
                     pl = C.op_place(t2["args"][0])
                     continue
                 return None
             rv2 = ds[0][3]["rv"]
             pl = rv2.get("pl") if rv2["k"] in ("ref", "copyforderef") else (C.op_place(rv2["op"]) if rv2["k"] in ("use", "cast") else None)
         return None
+
+    def unwrapped_later(l):
+        fw = {l}
+        changed = True
+        while changed:
+            changed = False
+            for bb2, si2, st2 in b.stmts():
+                if st2["k"] == "assign" and st2["rv"]["k"] == "use" and not st2["lhs"]["p"]:
+                    sp = C.op_place(st2["rv"]["op"])
+                    if sp is not None and not sp["p"] and sp["l"] in fw and st2["lhs"]["l"] not in fw:
+                        fw.add(st2["lhs"]["l"])
+                        changed = True
+        return any(C.is_try_branch(t2) and t2["args"] and (C.op_place(t2["args"][0]) or {}).get("l") in fw for bb2, t2 in b.calls())
 
     def comps(st, op):
         """number of dot-separated components of an extension operand, or None"""
@@ -2080,7 +2124,11 @@ def _candidate_deltas(prog, b):
             elif rv["k"] == "aggregate" and rv["agg"].get("adt") == "std::option::Option" and rv["agg"].get("variant") == "Some" and rv["ops"]:
                 r = root(st, rv["ops"][0])
                 if r is not None and st[r][0] == "P":
-                    results.append((bb, st[r][1]))
+                    if unwrapped_later(s_["lhs"]["l"]):
+                        # `Some(p)` handed back by a spliced helper and taken apart again with `?`: an intermediate value, tracked on
+                        st[s_["lhs"]["l"]] = st[r]
+                    else:
+                        results.append((bb, st[r][1]))
             elif rv["k"] == "aggregate" and rv["agg"]["k"] == "array":
                 # `vec![cand1, cand2]`: a list of candidates to probe
                 for o in rv["ops"]:
@@ -2108,6 +2156,36 @@ def _candidate_deltas(prog, b):
             cur = st[r] if (r is not None and st[r][0] == "P") else (self_state(bb) if is_self(a[0]) else None)
             if cur is not None:
                 st[dest] = apply_ext(cur, comps(st, a[1]), bb)
+        elif nm == "std::path::Path::file_name" and a:
+            # the whole file name of a tracked path: components appended to it (`name.push("."); name.push(ext)`) are components appended
+            # to the path, once it is put back with with_file_name
+            r = root(st, a[0])
+            cur = st[r] if (r is not None and st[r][0] == "P") else (self_state(bb) if is_self(a[0]) else None)
+            if cur is not None:
+                st[dest] = ("F", refine(cur, bb), 0, False)
+        elif nm == "std::path::Path::with_file_name" and len(a) == 2:
+            r = root(st, a[0])
+            cur = st[r] if (r is not None and st[r][0] == "P") else (self_state(bb) if is_self(a[0]) else None)
+            rn = root(st, a[1])
+            if cur is not None and rn is not None and st[rn][0] == "F" and st[rn][1][1] is not None and st[rn][1][:2] == refine(cur, bb)[:2] \
+                    and st[rn][2] is not None and not st[rn][3]:
+                base, n = st[rn][1], st[rn][2]
+                st[dest] = ("P", frozenset(x + n for x in base[1]), n if n else base[2], base[3] if not n else False, False)
+            elif cur is not None:
+                st[dest] = ("P", None, 0, False, False)
+        elif a and root(st, a[0]) is not None and st[root(st, a[0])][0] == "F" and (
+                nm in ("std::ffi::OsStr::to_os_string", "<std::ffi::OsStr as std::borrow::ToOwned>::to_owned", "<std::ffi::OsString as std::clone::Clone>::clone")
+                or (nm.endswith("::from") and "OsString" in nm) or nm in COPY):
+            st[dest] = st[root(st, a[0])]
+        elif nm == "std::ffi::OsString::push" and len(a) == 2 and root(st, a[0]) is not None and st[root(st, a[0])][0] == "F":
+            r = root(st, a[0])
+            _k, base, n, pend = st[r]
+            lv = C.trace(b, a[1], transparent=lambda t2: C.is_transparent(t2) or C.callee_name(t2) in VIEW)
+            if lv and all(l.kind == "const" and C.op_const(l.data) == '"."' for l in lv):
+                st[r] = ("F", base, n, True)
+            else:
+                k = comps(st, a[1])
+                st[r] = ("F", base, (n + k) if (pend and n is not None and k is not None) else None, False)
         elif nm in ("std::ffi::OsStr::to_os_string", "<std::ffi::OsString as std::convert::From<&T>>::from", "<std::ffi::OsString as std::convert::From<T>>::from",
                     "<std::ffi::OsStr as std::borrow::ToOwned>::to_owned", "<std::ffi::OsString as std::clone::Clone>::clone") or \
                 (nm.endswith("::from") and "OsString" in nm) or (nm in COPY and a and "OsStr" in (t.get("dest_ty") or "")):
@@ -2420,7 +2498,7 @@ def r15_9(ctx):
     neither call (nor the store that keeps a directive open) sits behind a test of the pass mode (`pp_mode`: first pass / collecting
     dependencies / second pass). A cheaper stand-in predicate for the dependency scan is a second grammar that must agree on every line."""
     lib = ctx.lib
-    for role_name in ("iterate_directive", "get_next_line"):
+    for role_name in ("iterate_directive", "get_next_line", "pp_run_internal"):
         b = body(ctx, role_name)
         if not b:
             continue
@@ -2431,6 +2509,12 @@ def r15_9(ctx):
         for bb, si, st in b.stmts():
             if st["k"] == "assign" and st["lhs"]["p"] and st["lhs"]["p"][-1].get("name") in ("cur_directive", "execute_tail_line"):
                 sites.append((bb, "store " + st["lhs"]["p"][-1]["name"]))
+        if role_name == "pp_run_internal":
+            # the line processor: only the re-queueing of the line that ended a directive belongs to the grammar (whether text is
+            # WRITTEN does depend on the pass)
+            sites = [(bb, w) for bb, w in sites if w == "store execute_tail_line"]
+            if not sites:
+                continue
         if role_name == "iterate_directive" and not {"detect_from", "add_line"} <= {w for bb, w in sites}:
             ctx.anchor_missing("detect_from and add_line calls in iterate_directive")
             continue
@@ -2457,6 +2541,14 @@ def r15_9(ctx):
                 ctx.violation([b.name, "pass-dependent-parse", what], "`%s` in %s happens only for some values of the pass mode (test at %s): the "
                               "dependency scan and the executing pass can disagree about which lines belong to a directive"
                               % (what, role_name, ctx.site(b, bad)["loc"]), site=ctx.site(b, bb))
+
+
+@rule("C02", "R02.14", floor=2)
+def r02_14(ctx):
+    """the dependency scan sees every line the executing pass sees (= C15 R15.9): reading, detection, continuation and the re-queueing of
+    the line that ended a directive do not depend on the pass mode — a line that is dropped only while collecting dependencies can be
+    the `include` of a generated file, which is then neither waited for nor scheduled"""
+    r15_9(ctx)
 
 
 @rule("C02", "R02.13", floor=1)
@@ -2558,3 +2650,139 @@ def r11_13(ctx):
     import rules_sched
     rules_sched.r02_1(ctx)
 
+
+@rule("C11", "R11.15", floor=2)
+def r11_15(ctx):
+    """the inputs and the recursion flag that are processed are those given to the command in effect (`txtpp clean -r dir`: the `-r` and
+    `dir` after `clean`), see R17.6"""
+    from rules_io import _cli_flags_of_subcommand
+    _cli_flags_of_subcommand(ctx, "inputs", "inputs")
+    _cli_flags_of_subcommand(ctx, "recursive", "recursive")
+
+
+@rule("C13", "R13.6", floor=1)
+def r13_6(ctx):
+    """`txtpp verify -n` verifies without the trailing newline: Config.trailing_newline is decided by the `-n` of the command in effect, see
+    R17.6"""
+    from rules_io import _cli_flags_of_subcommand
+    _cli_flags_of_subcommand(ctx, "trailing_newline", "no_trailing_newline")
+
+
+def _canon_place(b, pl):
+    """a place with its base resolved through unnamed single-definition temporaries that only copy a value or a reference
+    (`_14 = copy (_1.0); (*_14) = ..` is a store to `(*(_1.0))`)"""
+    seen = set()
+    while pl is not None and pl["l"] not in seen and not b.is_param(pl["l"]) and not b.local_name(pl["l"]):
+        seen.add(pl["l"])
+        ds = [r for r in b.defs().get(pl["l"], []) if r[0] != "passign"]       # (stores through the temporary do not redefine it)
+        if len(ds) == 1 and ds[0][0] == "assign" and ds[0][3]["rv"]["k"] in ("use", "copyforderef"):
+            rv = ds[0][3]["rv"]
+            src = C.op_place(rv["op"]) if rv["k"] == "use" else rv["pl"]
+            if src is None:
+                break
+            pl = {"l": src["l"], "p": list(src["p"]) + list(pl["p"])}
+        else:
+            break
+    return pl
+
+
+def _root_place(b, op):
+    """the place a compared / assigned operand is loaded from"""
+    pl = C.op_place(op)
+    return _canon_place(b, pl) if pl is not None else None
+
+
+def _overlap_accumulator(ctx, rule_tag):
+    lib = ctx.lib
+    inj = body(ctx, "tag_inject")
+    if not inj:
+        return
+    ORD = ("Lt", "Le", "Gt", "Ge")
+    KEEP = {("Lt", False): False, ("Ge", False): True, ("Gt", False): True, ("Le", False): False,
+            ("Le", True): True, ("Gt", True): False, ("Lt", True): True, ("Ge", True): False}
+    found = 0
+    for B in [inj] + lib.closures_of(inj):
+        stores = {}
+        for bb, si, st in B.stmts():
+            if st["k"] == "assign" and not (st["rv"]["k"] == "use" and st["rv"]["op"].get("k") == "const"):
+                # (`_t = copy acc` defines the temporary; only a store THROUGH a temporary reference is a store to what it refers to)
+                lhs = _canon_place(B, st["lhs"]) if st["lhs"]["p"] else st["lhs"]
+                stores.setdefault(C.pl_str(lhs), []).append((bb, st))
+        for bb, si, st in B.stmts():
+            if not (st["k"] == "assign" and st["rv"]["k"] == "binop" and st["rv"]["op"] in ORD):
+                continue
+            rv = st["rv"]
+            for first in (True, False):
+                acc_op = rv["a"] if first else rv["b"]
+                P = _root_place(B, acc_op)
+                if P is None:
+                    continue
+                key = C.pl_str(P)
+                # an accumulator: a named local or a captured `&mut usize`, reassigned in this body
+                named = (not P["p"] and B.local_name(P["l"])) or any(e.get("upvar") for e in P["p"])
+                # .. after the test, within the same iteration (the loop variable that holds the position is assigned BEFORE it)
+                heads_ = [hbb for hbb, ht in B.calls() if C.callee_name(ht).endswith(("Iterator>::next", "DoubleEndedIterator>::next_back")) and B.in_cycle(hbb)]
+                after = B.reachable(bb, cut=out_edges(B, heads_))
+                asg = [(abb, ast) for abb, ast in stores.get(key, []) if ast is not st and abb in after and (abb != bb or True)]
+                asg = [(abb, ast) for abb, ast in asg if not (abb == bb and B.blocks[bb]["stmts"].index(ast) < B.blocks[bb]["stmts"].index(st))]
+                if not named or not asg:
+                    continue
+                found += 1
+                want = KEEP[(rv["op"], first)]
+
+                def pred(c, v, leaf, rv=rv, bb=bb, want=want):
+                    return c.kind == "bool" and leaf is not None and leaf.kind == "binop" and leaf.data is rv and v == want
+                keep = C.guard_edges(B, lib, pred)
+                for abb, ast in asg:
+                    if keep and C.guarded(B, abb, keep):
+                        ctx.ok("%s|the end-of-previous accumulator advances only past an occurrence that is kept" % B.name.rsplit("::", 2)[-1],
+                               site=ctx.site(B, abb))
+                    else:
+                        ctx.violation([inj.name, "accumulator-advances-on-skip"], "the end-of-previous accumulator of the overlap test is advanced for "
+                                      "an occurrence that is skipped as well: a later occurrence is then compared with the end of a tag that was "
+                                      "NOT substituted (it is dropped although nothing overlaps it, or kept although it lies inside an "
+                                      "injected tag: the slice bounds cross)", site=ctx.site(B, abb))
+    if not found:
+        ctx.unverified("no ordering test against a reassigned end-of-previous accumulator found in inject_tags or its closures", site=ctx.site(inj, 0))
+
+
+@rule("C14", "R14.12", floor=1)
+def r14_12(ctx):
+    """overlap is judged against what was substituted: the accumulator the overlap test compares positions with (`last_end`) advances only
+    on the path that keeps the occurrence — in the substitution loop, or in the closure of a selection pass (`retain` / `filter`)"""
+    _overlap_accumulator(ctx, "R14.12")
+
+
+@rule("C18", "R18.6", floor=1)
+def r18_6(ctx):
+    """(= C14 R14.12) an accumulator that also advances on skipped occurrences can move backwards: the next kept occurrence then lies inside
+    an injected tag and `output[last_end..i]` is sliced with last_end > i — a panic in the worker, which the coordinator waits for forever"""
+    _overlap_accumulator(ctx, "R18.6")
+
+
+@rule("C01", "R01.14", floor=1)
+def r01_14(ctx):
+    """tags are judged when the file has been executed to the end: the unused-tag error is raised only past the point where a pass that is
+    merely collecting dependencies has returned its list (`HasDeps`). A first pass stops executing at its first dependency; a tag created
+    before that and used after it is still pending then — checking it there fails a well-formed project."""
+    lib = ctx.lib
+    ri = body(ctx, "pp_run_internal")
+    if not ri:
+        return
+    has = bool_call_edges(ri, lib, ROLE["tag_has_tags"], True)
+    if not has:
+        ctx.anchor_missing("test of has_tags() in the line processor")
+        return
+    errs = [e for e in err_sites(ri) if C.guarded(ri, e, has)]
+    adt = ADT.get("PpMode")
+    non_collect = enum_edges(ri, lib, adt, lambda vs: "CollectDeps" not in vs) if adt else set()
+    if not errs or not non_collect:
+        ctx.unverified("no error return behind has_tags() / no test of the pass mode for CollectDeps found in the line processor", site=ctx.site(ri, 0))
+        return
+    for e in errs:
+        if C.guarded(ri, e, non_collect):
+            ctx.ok("the unused-tag error is raised only when the pass is not a dependency-collecting one", site=ctx.site(ri, e))
+        else:
+            ctx.violation([ri.name, "unused-tags-while-collecting"], "the unused-tag error can be raised by a pass that is only collecting dependencies "
+                          "(before its HasDeps return): a tag created before the first dependency and used after it fails a well-formed project",
+                          site=ctx.site(ri, e))
